@@ -178,6 +178,8 @@ package mem
 //@   ensures int(address) + int(len) <= int(s.capacity) ==> result1 == nil && len(result0) == int(len) && fresh(result0)
 //@   label C20.read.noalias
 //@   ensures result1 == nil ==> forall k uint64 :: k in s.data ==> ref(s.data[k].data) != ref(result0)
+//@   label C20.read.created.fresh
+//@   ensures forall k uint64 :: (k in s.data) && !old(k in s.data) ==> fresh(s.data[k].data)
 //@   label C20.read.error.unchanged
 //@   ensures result1 != nil ==> nothingAssigned()
 //@   label C20.read.wf
@@ -208,6 +210,7 @@ package mem
 //@   loop 0: invariant forall k uint64 :: old(k in s.data) ==> (k in s.data) && s.data[k] == old(s.data[k])
 //@   loop 0: invariant forall k uint64 :: old(k in s.data) ==> forall j in 0..usz(s) :: s.data[k].data[j] == old(s.data[k].data[j])
 //@   loop 0: invariant forall k uint64 :: (k in s.data) && !old(k in s.data) ==> forall j in 0..usz(s) :: s.data[k].data[j] == 0
+//@   loop 0: invariant forall k uint64 :: (k in s.data) && !old(k in s.data) ==> fresh(s.data[k].data)
 //@   label C20.read.covered.inv
 //@   loop 0: invariant forall i in 0..dn :: (gU[i] in s.data) && 0 <= gU[i] && gU[i] <= int(address) + i && int(address) + i < gU[i] + usz(s)
 //@   label C20.read.bytes.inv
@@ -225,6 +228,8 @@ package mem
 //@   ensures int(address) + len(data) > int(s.capacity) ==> result != nil
 //@   label C20.write.ok
 //@   ensures int(address) + len(data) <= int(s.capacity) ==> result == nil
+//@   label C20.write.created.fresh
+//@   ensures forall k uint64 :: (k in s.data) && !old(k in s.data) ==> fresh(s.data[k].data)
 //@   label C20.write.error.unchanged
 //@   ensures result != nil ==> nothingAssigned()
 //@   label C20.write.wf
@@ -249,6 +254,7 @@ package mem
 //@   loop 0: invariant forall k uint64 :: k in s.data ==> ref(s.data[k].data) != ref(data)
 //@   loop 0: invariant forall i in 0..len(data) :: data[i] == old(data[i])
 // ground instance of the view (so that a misplaced chunk is refuted with a counterexample, not merely undecided)
+//@   loop 0: invariant forall k uint64 :: (k in s.data) && !old(k in s.data) ==> fresh(s.data[k].data)
 //@   label C20.write.view.firstbyte
 //@   loop 0: invariant dn > 0 ==> s.data[gU[0]].data[int(address) - gU[0]] == data[0]
 //@   loop 0: decreases len(data) - int(dataOffset)
